@@ -274,6 +274,14 @@ RETCODE adfUndelFile ( struct AdfVolume *        vol,
     if ( rc != RC_OK )
         return rc;
 
+    /* the header block was released with the file: it comes back with it */
+    if ( !adfIsBlockFree(vol, entry->headerKey) ) {
+        free(fileBlocks.data);
+        free(fileBlocks.extens);
+        return RC_ERROR;
+    }
+    adfSetBlockUsed(vol, entry->headerKey);
+
     for(i=0; i<fileBlocks.nbData; i++)
         if ( !adfIsBlockFree(vol,fileBlocks.data[i]) )
             return RC_ERROR;
